@@ -167,7 +167,10 @@ def run_case(case, note, skip):
               continue
             cal = None
             bad = False
-            if qt.need_calibration:
+            # calibrate() is called whether or not the recipe needs it (a
+            # user cannot know before asking); when nothing needs statistics
+            # its answer must still be accepted by quantize()
+            if True:
               for si in range(nsub):
                 try:
                   cal = qt.calibrate([copy.deepcopy(datas[si])],
